@@ -442,6 +442,9 @@ def games(draw, kinds=KINDS, enc_kinds=ALL_ENC, regimes=REGIMES, max_teams=8, ma
     if frag and draw(st.integers(0, 9)) == 0:
         # the values are ints / floats by isinstance, but instances of subclasses (what enum.IntEnum members, or a user's own numeric types, are)
         call["number_types"] = draw(st.sampled_from(["int-subclass", "float-subclass", "both"]))
+    if draw(st.integers(0, 7)) == 0:
+        # distinct rating objects that share one id (deepcopy clones of a template with their own values): see osk.mk_teams
+        call["clone_ids"] = draw(st.sampled_from(["all", "alternate"]))
     return {"cfg": cfg, "teams": teams, "call": call, "classes": classes, "meta": {"regime": regime, "enc": enc, **info}}
 
 
